@@ -287,8 +287,10 @@ pub fn check_diag(w2: &W2Prog, ev: &FailDesc, r: &RunResult, k1: bool, sig_extra
                 bad.push(format!("internal identifier '{w}' in the message"));
                 *sig_extra = format!(":internal-{w}");
             }
-            if !d.junk.is_empty() {
-                bad.push(format!("unexpected stderr lines: {:?}", d.junk));
+            // lines after the complete diagnostic are not forbidden by the statement;
+            // lines inside it are
+            if d.junk_before_trace_end {
+                bad.push(format!("unexpected stderr lines inside the diagnostic: {:?}", d.junk));
             }
             if ev.chain.is_empty() {
                 if d.has_stacktrace_header || !d.trace.is_empty() {
